@@ -97,6 +97,7 @@ func Gen(r *rand.Rand, drivers []evt.Driver, pf Profile) *Program {
 	}
 	if pf.Obs {
 		c.Obs = true
+		c.ObsTwice = r.IntN(4) == 0
 	}
 	if pf.Store && r.IntN(3) != 0 {
 		c.Store = true
